@@ -364,8 +364,8 @@ PROPS["C13"] = {
 PROPS["C14"] = {
     "level": "exploration",
     "technique": "property-based testing (rapidcheck) + exhaustive shape/relation/operation product: getter snapshots before/after copy, move and assignment, equality laws",
-    "rule": "cases = (domain Packet / ASAM payload / TECMP payload, source and target of every kind incl. the payload-less packet, "
-            "zero-length payloads, payloads with an invalid type and payloads rejected by validation, target relation independent / copy / copy with another payload type / copy with exactly one bit of one header field changed (every field x bit position enumerated) / self, operation copy-construct / "
+    "rule": "cases = (domain Packet / ASAM payload / TECMP payload / the seven typed ASAM payload classes / the four typed TECMP payload classes (objects of the class itself), source and target of every kind incl. the payload-less packet, "
+            "zero-length payloads, payloads with an invalid type and payloads rejected by validation, target relation independent / copy / copy with another payload type / copy with exactly one bit of one header field changed (every field x bit position enumerated) or with equal headers and a payload differing in one bit / one byte shorter / longer / one type bit / self, operation copy-construct / "
             "copy-assign / move-construct / move-assign incl. self-assignment and self-move-assignment), followed by mutation of either "
             "side and destruction of the source; non-trivial when the target already held a payload, a length is zero, the source has no "
             "payload, or the pair is equal-looking; distinct = distinct serialized cases",
